@@ -350,6 +350,11 @@ func (db *DB) Merge() error {
 					skipEntry = true
 				}
 
+				// records of transactions that never committed are not data
+				if _, ok := db.committedTxIds[entry.Meta.txID]; !ok {
+					skipEntry = true
+				}
+
 				// check if we have a new entry with same key and bucket
 				if r, _ := db.getRecordFromKey(entry.Meta.bucket, entry.Key); r != nil && !skipEntry {
 					if r.H.fileID > int64(pendingMergeFId) {
